@@ -1,6 +1,7 @@
 package main
 
 import (
+	"os"
 	"encoding/json"
 	"fmt"
 	"sort"
@@ -601,10 +602,142 @@ func c15Sig(what string, g *graph, r string) string {
 	return what + ":" + kind + ":" + why
 }
 
+// c15Generate runs the whole generator (types + embedded specification) on the graph's document extended by one
+// operation that an operation-id filter removes, together with a schema only that operation refers to: the components
+// of the embedded specification must be exactly the kept set of the graph alone.
+func c15Generate(ctx *Ctx, g *graph, label string) error {
+	if allOfCycle(g) {
+		// a property that extends its own enclosing schema inline (allOf back to the parent, possibly through further
+		// inline allOfs) has no finite Go type; the generator overflows its stack on it (DESIGN.md, finding under C01)
+		ctx.Res.Count("generate-level:skipped-inline-allOf-cycle")
+		return nil
+	}
+	doc := g.Build()
+	spec0, err := loadDoc(doc)
+	if err != nil {
+		return nil
+	}
+	codegen.VerifPrune(spec0)
+	a0, err := abstractDoc(spec0)
+	if err != nil {
+		return nil
+	}
+	kept := a0.names()
+	doc["paths"].(J)["/zz-extra"] = J{"get": J{"operationId": "ZzExtra", "responses": J{"200": J{"description": "d",
+		"content": J{"application/json": J{"schema": J{"$ref": "#/components/schemas/ZzOnly"}}}}}}}
+	getJ(doc["components"].(J), "schemas")["ZzOnly"] = J{"type": "object", "properties": J{"v": J{"type": "string"}}}
+	spec, err := loadDoc(doc)
+	if err != nil {
+		return fmt.Errorf("c15 generate-level document does not load: %v", err)
+	}
+	var o codegen.Configuration
+	o.PackageName = "api"
+	o.Generate.Models = true
+	o.Generate.EmbeddedSpec = true
+	o.OutputOptions.ExcludeOperationIDs = []string{"ZzExtra"}
+	if dump := os.Getenv("C15_DUMP"); dump != "" {
+		os.WriteFile(dump, []byte(Canon(doc)), 0o644)
+	}
+	src, err := generate(spec, o)
+	ctx.Res.Eval(J{"generate": J{"nodes": g.Nodes, "edges": g.Edges}}, len(g.Edges) > 0)
+	if err != nil {
+		// constructs of the graph that the type generator does not take are C01's subject
+		ctx.Res.Count("generate-level:not-generated")
+		return nil
+	}
+	ctx.Res.Count("generate-level:generated")
+	replay := J{"doc": doc, "graph": J{"nodes": g.Nodes, "edges": g.Edges}, "exclude-operation-ids": []string{"ZzExtra"}}
+	f, _, err := parseGo(src)
+	if err != nil {
+		ctx.Res.Violate("generate-level:unparsable", "output does not parse: "+err.Error(), replay)
+		return nil
+	}
+	raw, err := decodeEmbedded(f)
+	if err != nil {
+		ctx.Res.Violate("generate-level:embedded-undecodable", err.Error(), replay)
+		return nil
+	}
+	l := openapi3.NewLoader()
+	emb, err := l.LoadFromData(raw)
+	if err != nil {
+		ctx.Res.Violate("generate-level:embedded-unloadable:"+errorClass(firstLine(err.Error())), "the embedded specification does not load (dangling reference?): "+err.Error(), replay)
+		return nil
+	}
+	ae, err := abstractDoc(emb)
+	if err != nil {
+		return nil
+	}
+	got := ae.names()
+	if Canon(orEmpty(got)) != Canon(orEmpty(kept)) {
+		extra, missing := diffStrings(got, kept)
+		kind := "kept-unreferenced"
+		if len(missing) > 0 {
+			kind = "lost"
+		}
+		ctx.Res.Violate("generate-level:embedded-components:"+kind, fmt.Sprintf("components of the embedded specification differ from the referenced set: extra %v, missing %v (operation ZzExtra and its schema ZzOnly are filtered out by id)", extra, missing), replay)
+	}
+	return nil
+}
+
+// allOfCycle: is there a cycle made of schema -> schema allOf edges only?
+func allOfCycle(g *graph) bool {
+	adj := map[int][]int{}
+	for _, e := range g.Edges {
+		if e.From >= 0 && e.Pos == "allOf" && g.Nodes[e.From].Kind == "schemas" {
+			adj[e.From] = append(adj[e.From], e.To)
+		}
+	}
+	state := map[int]int{}
+	var visit func(int) bool
+	visit = func(n int) bool {
+		if state[n] == 1 {
+			return true
+		}
+		if state[n] == 2 {
+			return false
+		}
+		state[n] = 1
+		for _, m := range adj[n] {
+			if visit(m) {
+				return true
+			}
+		}
+		state[n] = 2
+		return false
+	}
+	for n := range adj {
+		if visit(n) {
+			return true
+		}
+	}
+	return false
+}
+
+func diffStrings(a, b []string) (onlyA, onlyB []string) {
+	ma, mb := map[string]bool{}, map[string]bool{}
+	for _, x := range a {
+		ma[x] = true
+	}
+	for _, x := range b {
+		mb[x] = true
+	}
+	for _, x := range a {
+		if !mb[x] {
+			onlyA = append(onlyA, x)
+		}
+	}
+	for _, x := range b {
+		if !ma[x] {
+			onlyB = append(onlyB, x)
+		}
+	}
+	return
+}
+
 func runC15(ctx *Ctx) error {
 	ctx.Res.Rule = "reference graphs over the 8 prunable component kinds, edges placed at every $ref position (see distribution pos:*); " +
 		"exhaustive part: for every (source kind, position, target kind) a root->A chain, a root->A-(pos)->B chain, an orphan A-(pos)->B chain and an orphan 2-cycle; " +
-		"random part: graphs of 2..9 components with random edges; non-trivial = at least one edge; distinct by canonical JSON of the graph"
+		"random part: graphs of 2..9 components with random edges; a third of them also through the whole generator (types + embedded specification) with one more operation that an operation-id filter removes: the components of the decoded embedded specification are exactly the referenced set; non-trivial = at least one edge; distinct by canonical JSON of the graph"
 	// every later component's name is a proper prefix of every earlier one (Nxxxxxxxxx, Nxxxxxxxx, …, N): a membership test
 	// on references that is not exact (prefix, substring, case) keeps or drops the wrong component
 	name := func(i int) string { return "N" + strings.Repeat("x", 9-i) }
@@ -763,6 +896,11 @@ func runC15(ctx *Ctx) error {
 				continue
 			}
 			return err
+		}
+		if i%3 == 0 {
+			if err := c15Generate(ctx, g, "random"); err != nil {
+				return err
+			}
 		}
 	}
 	ctx.Res.Exhaustive = false
